@@ -11,6 +11,63 @@ from ..exprcmp import EmEval, expr, body_env
 FILES = ['cherab/core/model/beam/charge_exchange.pyx', 'cherab/core/model/beam/beam_emission.pyx', 'cherab/core/plasma/node.pyx']
 
 
+def _r6_frames(run, prog):
+    """R6: BeamMaterial hands every beam model the sample point in beam space and, in *plasma* space, the point, the local beam direction and
+    the observation direction -- all three taken there with the one beam-to-plasma transform (the models compute the interaction
+    velocity from the beam direction and the plasma's ion velocity, which is a plasma-space vector)."""
+    run.describe('C05-R6', 'BeamMaterial.emission_function: plasma point, beam direction and observation direction are transformed with beam.to(plasma) before model.emission')
+    rel = 'cherab/core/beam/material.pyx'
+    mi = prog.load(rel, required=False)
+    if mi is None:
+        raise AnalysisError('anchored source file vanished: %s' % rel)
+    prog.link()
+    run.use_file(rel)
+    ci = prog.classes.get(mi.name + '.BeamMaterial')
+    fn = ci.methods.get('emission_function') if ci is not None else None
+    if fn is None:
+        raise AnalysisError('anchored method vanished: BeamMaterial.emission_function')
+    import copy as _copy
+    g = fn
+    names = [a.arg for a in g.args.args]
+    point, direction = names[1], names[2]
+    # straight-line substitution of the locals, in statement order (a local may be rebound: direction = f(direction))
+    env = {}
+
+    class _S(ast.NodeTransformer):
+        def visit_Name(self, n):
+            return _copy.deepcopy(env[n.id]) if n.id in env and isinstance(n.ctx, ast.Load) else n
+    calls = []
+    for st in g.body:
+        if isinstance(st, ast.Assign) and len(st.targets) == 1 and isinstance(st.targets[0], ast.Name):
+            env[st.targets[0].id] = _S().visit(_copy.deepcopy(st.value))
+        elif isinstance(st, (ast.For, ast.Expr, ast.Return, ast.If, ast.While)):
+            st2 = _S().visit(_copy.deepcopy(st))
+            calls += [c for c in ast.walk(st2) if isinstance(c, ast.Call) and isinstance(c.func, ast.Attribute) and c.func.attr == 'emission' and len(c.args) >= 5]
+    K = mi.name + '|BeamMaterial|emission_function|'
+    run.subject('C05-R6')
+    if len(calls) != 1:
+        run.undecided('C05-R6', 'BeamMaterial.emission_function', '%d calls of model.emission' % len(calls))
+        return
+    a = [norm(x).replace(' ', '') for x in calls[0].args[:4]]
+    T = 'self._beam.to(self._plasma)'
+    want = [point, '%s.transform(%s)' % (point, T), 'self._beam.direction(%s.x,%s.y,%s.z).transform(%s)' % (point, point, point, T),
+            '%s.transform(%s)' % (direction, T)]
+    what = ['the sample point (beam space)', 'the sample point in plasma space', 'the beam direction in plasma space', 'the observation direction in plasma space']
+    bad = [k for k in range(4) if a[k] != want[k].replace(' ', '')]
+    if not bad:
+        run.ok('C05-R6', 'BeamMaterial.emission_function', 'point, point / beam direction / observation direction transformed with beam.to(plasma)')
+    else:
+        k = bad[0]
+        known = a[k] in (point, direction, 'self._beam.direction(%s.x,%s.y,%s.z)' % (point, point, point)) or '.transform(' in a[k]
+        if known:
+            run.fail('C05-R6', K + 'frames:%d' % k, rel, calls[0].lineno,
+                     'BeamMaterial passes %s as %s to the beam models; documented: %s -- for a beam rotated with respect to the plasma the '
+                     'interaction energy with moving ions, and with it every CX / beam-emission coefficient, is evaluated for the wrong velocity'
+                     % (a[k][:70], what[k], want[k]))
+        else:
+            run.undecided('C05-R6', 'BeamMaterial.emission_function', 'argument %d is %s' % (k, a[k][:50]))
+
+
 def check(run):
     prog = Program()
     prog.load_many(FILES)
@@ -36,6 +93,7 @@ def check(run):
     _cx(run, cx)
     _be(run, be)
     _plasma(run, pl)
+    _r6_frames(run, prog)
     run.include('C01', set(FILES) | {'cherab/core/plasma/node.pyx', 'cherab/core/plasma/model.pyx', 'cherab/core/utility/notify.py'}, 'the cached receiver species, rates and populations must follow changes of the plasma composition')
     from ..cachekey import check_caches
     check_caches(run, [m_ for m_ in prog.modules.values() if m_.relpath in set(FILES) and not m_.name.endswith('#pxd')], 'C05-K', prog=prog)
